@@ -981,7 +981,7 @@ class StyleProperties:
 
       for shadow in xml_attrib.split(","):
 
-        cs = shadow.split(" ")
+        cs = shadow.split()
 
         if len(cs) < 2 or len(cs) > 4:
           raise ValueError("Invalid Syntax")
